@@ -6,6 +6,10 @@
 //    L id id ...                     assertions (debug ids) to be lowered by q=lower / q=pipe
 // Header options:  q=live | crawl | dce | simp | lower | pipe      cd=0|1 (crawler: control deps)
 //
+// Boolean statements (cfgtext.hpp: bassign, bcopy, bnot, bbin, bselect, bassume, bnassume, bassert, bhavoc, bzext) are
+// accepted by q=dce | simp | lower | pipe | echo and printed back in the same textual form; in the F section a
+// boolean variable is written b<i>; L may list the ids of boolean assertions.
+//
 // Answers:
 //   q=live   b0:L{live-out}D{dead_exit} b1:...                 (sets of variable numbers, sorted)
 //   q=crawl  b0:[id:{vars};id:{vars}] b1:...                   (assertion ids sorted; T = top)
@@ -29,6 +33,11 @@ static long vnum(program &P, const z_var &v) {
   for (size_t i = 0; i < P.vars.size(); ++i) if (P.vars[i].index() == v.index()) return (long)i;
   return -1;
 }
+static long boolnum(program &P, const z_var &v) {
+  for (size_t i = 0; i < P.bools.size(); ++i) if (P.bools[i].index() == v.index()) return (long)i;
+  return -1;
+}
+static std::string bn(program &P, const z_var &v) { return std::to_string(boolnum(P, v)); }
 static std::string show_set(program &P, const varset_t &s) {
   if (s.is_top()) return "T";
   std::vector<long> r;
@@ -67,9 +76,41 @@ static std::string show_stmt(program &P, const stmt_t &s) {
   }
   if (s.is_assume()) return "assume " + show_cst(P, static_cast<const assume_t &>(s).constraint());
   if (s.is_assert()) return "assert " + show_cst(P, static_cast<const assert_t &>(s).constraint()) + " " + std::to_string((long)s.get_debug_info().get_id());
-  if (s.is_havoc()) return "havoc " + std::to_string(vnum(P, static_cast<const havoc_t &>(s).get_variable()));
+  if (s.is_havoc()) {
+    const z_var &x = static_cast<const havoc_t &>(s).get_variable();
+    if (boolnum(P, x) >= 0) return "bhavoc " + bn(P, x);
+    return "havoc " + std::to_string(vnum(P, x));
+  }
   if (s.is_select()) { auto &a = static_cast<const select_t &>(s); return "select " + std::to_string(vnum(P, a.lhs())) + " " + show_cst(P, a.cond()) + " " + show_exp(P, a.left()) + " " + show_exp(P, a.right()); }
   if (s.is_unreachable()) return "unreachable";
+  if (s.is_bool_assign_cst()) {
+    auto &a = static_cast<const bb_t::bool_assign_cst_t &>(s);
+    if (!a.is_rhs_linear_constraint()) return "?";
+    return "bassign " + bn(P, a.lhs()) + " " + show_cst(P, a.rhs_as_linear_constraint());
+  }
+  if (s.is_bool_assign_var()) {
+    auto &a = static_cast<const bb_t::bool_assign_var_t &>(s);
+    return std::string(a.is_rhs_negated() ? "bnot " : "bcopy ") + bn(P, a.lhs()) + " " + bn(P, a.rhs());
+  }
+  if (s.is_bool_bin_op()) {
+    auto &a = static_cast<const bb_t::bool_bin_op_t &>(s);
+    const char *o = a.op() == crab::cfg::BINOP_BAND ? "and" : a.op() == crab::cfg::BINOP_BOR ? "or" : a.op() == crab::cfg::BINOP_BXOR ? "xor" : "?";
+    return std::string("bbin ") + o + " " + bn(P, a.lhs()) + " " + bn(P, a.left()) + " " + bn(P, a.right());
+  }
+  if (s.is_bool_select()) {
+    auto &a = static_cast<const bb_t::bool_select_t &>(s);
+    return "bselect " + bn(P, a.lhs()) + " " + bn(P, a.cond()) + " " + bn(P, a.left()) + " " + bn(P, a.right());
+  }
+  if (s.is_bool_assume()) {
+    auto &a = static_cast<const bb_t::bool_assume_t &>(s);
+    return std::string(a.is_negated() ? "bnassume " : "bassume ") + bn(P, a.cond());
+  }
+  if (s.is_bool_assert()) return "bassert " + bn(P, static_cast<const bb_t::bool_assert_t &>(s).cond()) + " " + std::to_string((long)s.get_debug_info().get_id());
+  if (s.is_int_cast()) {
+    auto &a = static_cast<const bb_t::int_cast_t &>(s);
+    if (a.op() == crab::cfg::CAST_ZEXT && boolnum(P, a.src()) >= 0) return "bzext " + std::to_string(vnum(P, a.dst())) + " " + bn(P, a.src());
+    return "?";
+  }
   return "?";
 }
 static std::string show_cfg(program &P) {
@@ -96,7 +137,7 @@ static std::string show_cfg(program &P) {
 static void do_lower(program &P, const std::set<long> &ids) {
   z_cfg_ref_t ref(*P.cfg);
   std::set<const stmt_t *> safe;
-  for (auto &b : *P.cfg) for (auto &s : b) if (s.is_assert() && ids.count((long)s.get_debug_info().get_id())) safe.insert(&s);
+  for (auto &b : *P.cfg) for (auto &s : b) if ((s.is_assert() || s.is_bool_assert()) && ids.count((long)s.get_debug_info().get_id())) safe.insert(&s);
   crab::transforms::lower_safe_assertions<z_cfg_ref_t> lsa(safe);
   lsa.run(ref);
 }
@@ -117,8 +158,9 @@ static std::string eval(const std::vector<std::string> &line) {
     if (s[0] == "F") {
       std::vector<std::string> r(s.begin() + 1, s.end()); tok k{r, 0};
       std::vector<z_var> ins, outs;
-      long nin = k.nexti(); for (long j = 0; j < nin; ++j) ins.push_back(P.vars[k.nexti()]);
-      long nout = k.nexti(); for (long j = 0; j < nout; ++j) outs.push_back(P.vars[k.nexti()]);
+      auto var = [&P](const std::string &t) { return t[0] == 'b' ? P.bvar(std::stol(t.substr(1))) : P.vars[std::stol(t)]; };
+      long nin = k.nexti(); for (long j = 0; j < nin; ++j) ins.push_back(var(k.next()));
+      long nout = k.nexti(); for (long j = 0; j < nout; ++j) outs.push_back(var(k.next()));
       P.cfg->set_func_decl(z_cfg_t::fdecl_t("f", ins, outs));
     }
     if (s[0] == "L") for (size_t j = 1; j < s.size(); ++j) lower_ids.insert(std::stol(s[j]));
